@@ -1090,6 +1090,109 @@ bool trackedCliCheck(const TrackedCli& t, std::string& detail) {
     return true;
 }
 
+
+// ---- class-shape probe of C03: every qubit field of every live object denotes a simulator qubit of its own ----------------
+// Chains of up to three classes, each level declaring one or two qubit fields whose names are drawn from {q, r, s}: a
+// level may re-declare (shadow) a name of a level below it. One or two objects are created and an x is applied through
+// every field name; at every statement boundary all qubit fields of all live objects must hold pairwise different
+// indices, and once everything is built their number, and the register size, must be the number of declared fields.
+struct ShapePlan { std::vector<std::vector<int>> levels; int objects = 1; uint64_t seed = 0; };
+Json shapeJson(const ShapePlan& p) {
+    Json lv = Json::array();
+    for (auto& l : p.levels) { Json a = Json::array(); for (int n : l) a.push(n); lv.push(a); }
+    return Json::object().set("engine", "qhist").set("level", "class_shape").set("levels", lv).set("objects", p.objects).set("rng_seed", Json((unsigned long long)p.seed)).set("rng_run", Json(0ull));
+}
+ShapePlan shapeFrom(const Json& j) {
+    ShapePlan p;
+    for (auto& l : j.at("levels").a) { std::vector<int> v; for (auto& n : l.a) v.push_back((int)n.asInt()); p.levels.push_back(v); }
+    p.objects = (int)j.at("objects").asInt();
+    p.seed = j.at("rng_seed").asU64(0);
+    return p;
+}
+std::string shapeSource(const ShapePlan& p) {
+    static const char* names[] = {"q", "r", "s"};
+    std::string s;
+    for (size_t l = 0; l < p.levels.size(); ++l) {
+        std::string cls = "S" + std::to_string(l);
+        s += "class " + cls + (l ? " extends S" + std::to_string(l - 1) : "") + " {\n";
+        for (int n : p.levels[l]) s += std::string("    public qubit ") + names[n] + ";\n";
+        s += "    public constructor() -> " + cls + " { " + (l ? "super(); " : "") + "return this; }\n}\n";
+    }
+    std::string top = "S" + std::to_string(p.levels.size() - 1);
+    s += "function main() -> void {\n";
+    for (int o = 0; o < p.objects; ++o) s += "    " + top + " o" + std::to_string(o) + " = new " + top + "();\n";
+    std::set<int> visible;
+    for (auto& l : p.levels) for (int n : l) visible.insert(n);
+    for (int o = 0; o < p.objects; ++o)
+        for (int n : visible) s += "    x(o" + std::to_string(o) + "." + names[n] + ");\n";
+    s += "    echo(\"end\");\n}\n";
+    return s;
+}
+struct ShapeObs { std::string problem; size_t lastCount = 0; int lastSimQubits = 0; };
+ShapeObs* g_shapeObs = nullptr;
+void shapeObserver(runtime::RuntimeEvaluator* ev, void*, uint64_t, bool) {
+    if (!g_shapeObs || !g_shapeObs->problem.empty()) return;
+    std::map<int, std::string> seen;
+    size_t count = 0;
+    int objIdx = 0;
+    for (auto& w : ev->m_heap) {
+        auto obj = w.lock();
+        if (!obj || obj->destroyed) continue;
+        ++objIdx;
+        for (size_t f = 0; f < obj->fields.size(); ++f) {
+            if (obj->fields[f].type != runtime::Value::Type::Qubit) continue;
+            ++count;
+            int q = obj->fields[f].qubit;
+            std::string name = "object " + std::to_string(objIdx) + " field slot " + std::to_string(f);
+            if (seen.count(q)) { g_shapeObs->problem = name + " and " + seen[q] + " both hold simulator qubit q[" + std::to_string(q) + "]"; return; }
+            seen[q] = name;
+        }
+    }
+    g_shapeObs->lastCount = count;
+    g_shapeObs->lastSimQubits = ev->m_sim.m_qubits;
+}
+bool shapeCheck(const ShapePlan& p, std::string& cls, std::string& detail) {
+    std::unique_ptr<compiler::Program> prog;
+    try {
+        std::string src = shapeSource(p);   // the lexer keeps a view of it
+        compiler::Lexer lx(src);
+        auto toks = lx.tokenize();
+        compiler::Parser ps(std::move(toks));
+        prog = ps.parse();
+        compiler::SemanticAnalyser an;
+        an.analyse(*prog);
+    } catch (const std::exception& e) { cls = "harness_rejected"; detail = e.what(); return false; }
+    ShapeObs obs;
+    g_shapeObs = &obs;
+    g_rng.reset(p.seed, 0);
+    g_rng.install();
+    gcs::g_observer = &shapeObserver;
+    gcs::install();
+    gcs::Schedule s;
+    s.generative = true;
+    s.meanIncNs = 1000000;
+    std::string failure;
+    {
+        CoutCapture cap;
+        gcs::beginRun(s);
+        {
+            runtime::RuntimeEvaluator ev;
+            try { ev.execute(*prog); } catch (const std::exception& e) { failure = e.what(); }
+        }
+        gcs::endRun();
+    }
+    gcs::g_observer = nullptr;
+    g_shapeObs = nullptr;
+    rngs::Provider::uninstall();
+    size_t declared = 0;
+    for (auto& l : p.levels) declared += l.size();
+    declared *= (size_t)p.objects;
+    if (!obs.problem.empty()) { cls = "two_fields_share_qubit"; detail = obs.problem; return false; }
+    if (!failure.empty()) { cls = "unexpected_runtime_error"; detail = "class-shape program stopped: " + failure; return false; }
+    if (obs.lastCount != declared || obs.lastSimQubits != (int)declared) { cls = "state_size_wrong"; detail = std::to_string(declared) + " qubit fields were declared, " + std::to_string(obs.lastCount) + " are held by live objects and the simulator has " + std::to_string(obs.lastSimQubits) + " qubits"; return false; }
+    return true;
+}
+
 // ================================================================================================
 // plans, runs, shrinking
 // ================================================================================================
@@ -1342,6 +1445,41 @@ void runOne(const sim::Options& opt, uint64_t run, sim::RunReport& rep) {
         fprintf(stderr, "rejected (run %llu): %s\n", (unsigned long long)run, detail.c_str());
         return;
     }
+    // class-shape probe of C03 on a sample of runs
+    if (property == "C03" && run % 32 == 7 && cls.empty()) {
+        sim::Rng sg(opt.seed, "shape", run);
+        ShapePlan sp;
+        int depth = sg.range(1, 3);
+        for (int l = 0; l < depth; ++l) {
+            std::vector<int> lv;
+            int a = (int)sg.below(3);
+            lv.push_back(a);
+            if (sg.chance(0.5)) { int b = (int)sg.below(3); if (b != a) lv.push_back(b); }
+            sp.levels.push_back(lv);
+        }
+        sp.objects = sg.range(1, 2);
+        sp.seed = opt.seed ^ run;
+        rep.count("shape.class_shape_probes");
+        std::set<int> names;
+        bool shadow = false;
+        for (auto& l : sp.levels) for (int n : l) { if (!names.insert(n).second) shadow = true; }
+        if (shadow) rep.count("shape.field_name_redeclared_by_a_derived_class");
+        std::string c1, d1, c2, d2;
+        if (!shapeCheck(sp, c1, d1)) {
+            if (c1 == "harness_rejected") { rep.count("shape.rejected_by_front_end"); fprintf(stderr, "shape program rejected (run %llu): %s\n", (unsigned long long)run, d1.c_str()); }
+            else {
+                shapeCheck(sp, c2, d2);
+                sim::Violation v;
+                v.cls = c1;
+                v.signature = "shape:" + c1;
+                v.detail = d1;
+                v.reproducible = c2 == c1 && d2 == d1;
+                v.plan = shapeJson(sp);
+                rep.violations.push_back(std::move(v));
+                return;
+            }
+        }
+    }
     // CLI clause of C02 on a sample of runs: the shot loop's table against the returned bits
     if (property == "C02" && run % 16 == 5 && cls.empty()) {
         sim::Rng tk(opt.seed, "tracked_cli", run);
@@ -1507,7 +1645,11 @@ int doReplay(const sim::Options& opt) {
     std::string property = opt.property.empty() ? file.at("engine_property").asStr() : opt.property;
     uint64_t seed = pj.at("rng_seed").asU64(1), run = pj.at("rng_run").asU64(0);
     std::string cls, detail;
-    if (pj.at("level").asStr() == "cli_tracked") {
+    if (pj.at("level").asStr() == "class_shape") {
+        ShapePlan sp = shapeFrom(pj);
+        if (!shapeCheck(sp, cls, detail)) { if (cls == "harness_rejected") cls.clear(); }
+        else cls.clear();
+    } else if (pj.at("level").asStr() == "cli_tracked") {
         TrackedCli t;
         t.k = (int)pj.at("calls_per_shot").asInt();
         t.shots = (int)pj.at("shots").asInt();
@@ -1625,6 +1767,7 @@ int main(int argc, char** argv) {
     // vacuity guard
     std::vector<std::string> mandatory = {"rng.words_drawn", "sim.measures", "sim.resets", "sim.entangled_resets", "sim.boundary_draws", "prog.boundaries_checked", "prog.reuse_events", "prog.genuine_resets", "prog.boundary_draws"};
     if (opt.property == "C06") { mandatory.push_back("prog.ended_with_runtime_error"); mandatory.push_back("sim.guard_probes"); }
+    if (opt.property == "C03") { mandatory.push_back("shape.class_shape_probes"); mandatory.push_back("shape.field_name_redeclared_by_a_derived_class"); }
     if (opt.property == "C02") { mandatory.push_back("cli.tracked_table_checks"); mandatory.push_back("cli.tracked_scope_left_several_times_per_shot_in_multi_shot_run"); }
     if (opt.property == "C05") { mandatory.push_back("cli.qasm_file_checks"); mandatory.push_back("cli.source_named_through_symlink_dotdot"); }
     if (R.runs >= 1000 && !g_bigReg) {
